@@ -64,9 +64,19 @@ def resolve(func):
 
 def _task(args):
     """runs in a pool worker"""
-    ob_d, pins, tolerate = args
+    ob_d, pins, tolerate = args[:3]
+    deadline = args[3] if len(args) > 3 else None
     ensure_env()
     t0 = time.time()
+    if deadline is not None and ob_d.get("may_be_incomplete"):
+        # wall budget of the whole run (thorough tier): obligations that are not sized to exhaust share what is left
+        left = deadline - t0
+        if left <= 5:
+            return dict(paths=0, ok=0, ignored=0, unknown=0, known=0, failed=0, exhausted=False, decisions=0,
+                        fails=[], goals={}, goals_seen={}, known_codes={}, samples=[], solver_queries=0, solver_s=0.0,
+                        solver_unknown=0, realizations=0, realization_sites={}, unknown_reasons={}, error=None,
+                        skipped_at_deadline=True, ob=ob_d["name"], pins=pins, task_wall=0.0)
+        ob_d = dict(ob_d, budget_s=min(ob_d["budget_s"], left))
     if not os.environ.get("VERIF_KEEP_STDOUT"):
         sys.stdout = open(os.devnull, "w")     # the code under test prints progress tables
     try:
@@ -161,15 +171,18 @@ def run_property(prop, obligations, tier, seed=0, workers=None, assumptions=(), 
     if cap:
         for ob in obligations:
             ob.budget_s = min(ob.budget_s, float(cap))
+    # wall budget for the whole run: only obligations flagged may_be_incomplete (thorough tier) are cut by it
+    wall_budget = os.environ.get("VERIF_WALL_S") or ("3000" if tier == "thorough" else "")
+    deadline = (t_start + float(wall_budget)) if wall_budget else None
     tasks = []
     for ob in obligations:
         for pins in _pin_combos(ob.split):
-            tasks.append((asdict(ob), pins, tolerate))
+            tasks.append((asdict(ob), pins, tolerate, deadline))
     import random
     rnd = random.Random(seed)
-    # longest obligations first (by budget), order otherwise seeded
+    # obligations sized to exhaust first, then longest first (by budget), order otherwise seeded
     rnd.shuffle(tasks)
-    tasks.sort(key=lambda t: -t[0]["budget_s"])
+    tasks.sort(key=lambda t: (bool(t[0]["may_be_incomplete"]), -t[0]["budget_s"]))
     results = {}
     ctx = mp.get_context("spawn")
     n_proc = max(1, min(workers, len(tasks)))
@@ -203,6 +216,7 @@ def run_property(prop, obligations, tier, seed=0, workers=None, assumptions=(), 
                    solver_queries=sum(s["solver_queries"] for s in sts),
                    solver_s=round(sum(s["solver_s"] for s in sts), 2),
                    realizations=sum(s["realizations"] for s in sts),
+                   subtrees_skipped_at_deadline=sum(1 for s in sts if s.get("skipped_at_deadline")),
                    wall_s=round(max([s["task_wall"] for s in sts] or [0]), 1),
                    cpu_s=round(sum(s["task_wall"] for s in sts), 1))
         if ob.note:
@@ -394,6 +408,7 @@ def run_property(prop, obligations, tier, seed=0, workers=None, assumptions=(), 
             known_findings_reproduced=known_alive,
             harness_errors=harness_errors,
             trusted_base=list(trusted_base),
+            run_wall_budget_s=(float(wall_budget) if wall_budget else None),
         ),
         assumptions=list(assumptions),
         wall_s=round(wall, 1),
